@@ -42,13 +42,21 @@ type c16Case struct {
 	File   fileCase `json:"file,omitempty"`
 	Fanout int      `json:"fanout,omitempty"`
 	Names  []string `json:"names,omitempty"`
+	// SplitRead: the link system reads from ANOTHER store, which already holds
+	// every block of this build (a re-export of existing content into a fresh
+	// store); writes go to the store under test
+	SplitRead bool `json:"split_read,omitempty"`
 }
 
 func (c c16Case) String() string {
-	if c.Kind == "file" {
-		return "file " + c.File.String()
+	sr := ""
+	if c.SplitRead {
+		sr = " split-read-store"
 	}
-	return fmt.Sprintf("%s F=%d %q", c.Kind, c.Fanout, trimNames(c.Names))
+	if c.Kind == "file" {
+		return "file " + c.File.String() + sr
+	}
+	return fmt.Sprintf("%s F=%d %q%s", c.Kind, c.Fanout, trimNames(c.Names), sr)
 }
 
 type c16Replay struct {
@@ -174,6 +182,11 @@ func (c c16Case) body(x *xplore.Ctx, viol func(sig, detail string)) string {
 	var l ipld.Link
 	var err error
 	ls := s.LinkSystem()
+	if c.SplitRead {
+		other := store.New()
+		c.build(other, other.LinkSystem())
+		ls.StorageReadOpener = other.LinkSystem().StorageReadOpener
+	}
 	run := func() {
 		if p, pv := core.Guard(func() { l, _, err = c.build(s, ls) }); p {
 			if _, ok := pv.(xplore.Truncated); ok {
@@ -263,6 +276,11 @@ func runC16(r *core.Run) {
 			cases = append(cases, c16Case{Kind: "plain", Names: gen.SubsetOf(u, m)})
 		}
 	}
+	cases = append(cases,
+		c16Case{Kind: "file", File: fileCase{Writer: "ours", W: 2, Chunker: "size-3", L: 8, K: 3, Pattern: "distinct"}, SplitRead: true},
+		c16Case{Kind: "symlink", SplitRead: true},
+		c16Case{Kind: "plain", Names: u[:3], SplitRead: true},
+		c16Case{Kind: "sharded", Fanout: 8, Names: u[:4], SplitRead: true})
 	cases = append(cases, c16Case{Kind: "sharded", Fanout: 256, Names: u}, c16Case{Kind: "recursive"}, c16Case{Kind: "quick"}, c16Case{Kind: "auto-large"})
 	var execs int64
 	maxDepth := 0
